@@ -18,6 +18,8 @@ ID = 'C25'
 LEVEL = 'exploration'
 RULE = ('grid: strings of length 0..6 x start,stop in {-8..8, omitted, None} x bound mode in {const, param, column expr} '
         '(complete), index in -8..8 x {const, param, column}; random: bounds to +-40, unicode strings to length 12. '
+        'Part 1b: slices/indexes with parameter bounds inside exists/in/count subqueries and in a later filter() lambda, the same '
+        'query text executed with every pair of bounds (a cached translation must not keep earlier bounds). '
         'A case is one (string, start, stop, modes) tuple; non-trivial = a negative or out-of-range or None bound, '
         'distinct by the tuple. Index out of range is unspecified (skipped, not counted). Dialect part: the same complete grid '
         '(no random part) once per dialect in {mysql (generic path), oracle (generic path), postgres}: a case is the tuple plus the '
@@ -115,6 +117,45 @@ def run_index_query(E, rows, mode, val, base='x.s'):
     return src, out
 
 
+POSITIONS = {
+    'exists_subquery': '(x.id for x in E if exists(y for y in E if y.id == x.id and %s == t))',
+    'in_subquery': '(x.id for x in E if x.id in (y.id for y in E if %s == t))',
+    'count_subquery': '(x.id for x in E if count(y for y in E if y.id == x.id and %s == t) > 0)',
+    'filter_lambda': None,
+}
+
+
+def run_position_query(E, rows, position, kind, i, j, t):
+    """the slice / index with PARAMETER bounds sits in a nested query (or a later filter() lambda); the same query text is run
+    again and again with other bound values, so a translation cached for one pair of bounds must not be reused for another.
+    Returns (src, got ids, ids that must match, ids that may match (index out of range: unspecified))"""
+    from pony.orm import select, db_session, exists, count
+    expr = 'y.s[i:j]' if kind == 'slice' else 'y.s[i]'
+    must, may = set(), set()
+    for (n, s, a, b) in rows:
+        if kind == 'slice':
+            if s[i:j] == t:
+                must.add(n)
+        else:
+            try:
+                if s[i] == t:
+                    must.add(n)
+            except IndexError:
+                may.add(n)
+    with db_session:
+        if position == 'filter_lambda':
+            src = 'select(y for y in E).filter(lambda y: %s == t)' % expr
+            q = select('(y for y in E)', {'E': E}, {})
+            if kind == 'slice':
+                got = set(o.id for o in q.filter(lambda y: y.s[i:j] == t))
+            else:
+                got = set(o.id for o in q.filter(lambda y: y.s[i] == t))
+        else:
+            src = POSITIONS[position] % expr
+            got = set(select(src, {'E': E, 'exists': exists, 'count': count}, {'i': i, 'j': j, 't': t})[:])
+    return src, got, must, may
+
+
 def norm(v):
     # Optional(str) results: '' and None are both "empty" for an expression result? No: compare exactly,
     # but SQLite returns '' for empty slices and Pony passes it through.
@@ -187,6 +228,39 @@ def run(ctx):
                 if got != exp:
                     ctx.fail(case, '%s with s=%r index=%r returned %r, Python gives %r' % (src, s, idx, got, exp))
 
+
+    # part 1b: parameter bounds inside nested queries / later filters; the same query text runs with every pair of bounds
+    pos_cells = []
+    for position in sorted(POSITIONS):
+        for i in [None] + BOUNDS[::2] + [1, -1]:
+            for j in [None] + BOUNDS[1::2] + [0, -2]:
+                pos_cells.append((position, 'slice', i, j))
+        for i in BOUNDS:
+            pos_cells.append((position, 'index', i, None))
+    for k, (position, kind, i, j) in enumerate(pos_cells):
+        if k % ctx.nshards != ctx.shard:
+            continue
+        ctx.check_time()
+        for probe in ('abcdef', 'ab'):
+            try:
+                t = probe[i:j] if kind == 'slice' else probe[i]
+            except IndexError:
+                continue
+            case = {'kind': 'position', 'position': position, 'what': kind, 'start': i, 'stop': j, 't': t,
+                    'smode': 'param', 'tmode': 'param'}
+            try:
+                src, got, must, may = run_position_query(E_one, rows_one, position, kind, i, j, t)
+            except Exception as e:
+                _pony_error(ctx, case, e)
+                continue
+            ctx.case(key=case, nontrivial=True, classes=['position:' + position, 'position_' + kind],
+                     sample={'query': src, 'i': i, 'j': j, 't': t, 'got': sorted(got)} if k % 11 == 0 else None)
+            if not (must <= got <= (must | may)):
+                if kind == 'slice' and j == -1 and i in (0, None):
+                    case = dict(case, kind='slice')      # the open finding C25-stop-minus-one, in this position too
+                ctx.fail(case, '%s with i=%r j=%r t=%r returned ids %s, Python gives %s%s'
+                         % (src, i, j, t, sorted(got), sorted(must), (' (+ optionally %s)' % sorted(may)) if may else ''))
+
     # part 2: the same cells on the generic (MySQL, Oracle) and PostgreSQL code paths, evaluated by the dialect emulator
     for k, cell in enumerate(cells):
         if k % ctx.nshards != ctx.shard:
@@ -244,6 +318,23 @@ def replay(case):
         return c25_dialects.replay(case)
     kind = case['kind']
     s = case['s'] if 's' in case else None
+    if 'position' in case:
+        # replayed after another pair of bounds went through the same query text first (the cached translation)
+        db, E, rows = _setup(STRINGS, [(None, None)])
+        what = case['what']
+        try:
+            i0, j0 = case['start'], case['stop']     # prime the translation cache with other bounds of the same types
+            run_position_query(E, rows, case['position'], what, None if i0 is None else (2 if i0 != 2 else 1),
+                               None if j0 is None else (3 if j0 != 3 else 4), 'c')
+            src, got, must, may = run_position_query(E, rows, case['position'], what, case['start'], case['stop'], case['t'])
+        except Exception as e:
+            from pony.orm.core import TranslationError
+            if isinstance(e, (TranslationError, TypeError, NotImplementedError)):
+                return None
+            return 'unexpected %s: %s' % (type(e).__name__, e)
+        if not (must <= got <= (must | may)):
+            return '%s with i=%r j=%r t=%r returned ids %s, Python gives %s' % (src, case['start'], case['stop'], case['t'], sorted(got), sorted(must))
+        return None
     if kind == 'slice':
         strings = [s] if s is not None else case['strings']
         smode, tmode = case['smode'], case['tmode']
